@@ -21,6 +21,11 @@ CLAIMS = {
          'TLC evaluates Matches and Subtype over a finite universe of ~350-465 sequence types and 49-79 values and proves the laws on the spec; the implementation relations exported at check time must satisfy the same laws and equal the spec, every counterexample is re-confirmed through the public API; each registered function signature is called with TLC-chosen arguments and the result must match the declared return type in the spec.',
          'universe bounded (16/46 atomic type names, sequences <= 2); maps/arrays against typed function tests where XDM 17.1 and XPath 2.5.6.2 disagree are not judged; schema-aware types excluded; no second oracle: mismatches adjudicated by the W3C text (refs in known_findings.d/C18.json)',
          'DESIGN.md section 4 C18'),
+ 'C17': ('model_checking',
+         'TLA+ specs JsonString (character-level escape/unescape step machine incl. a transcription of the implementation replace chain), JsonModel (one JSON value in three representations with Serialize/ParseJson/JsonToXml/XmlToJson actions) and XmlRoundTrip (over XDM) checked by TLC; every transition replayed through serialize / parse-json / json-to-xml / xml-to-json / parse-xml with deep-equal and python json as second oracle',
+         'TLC proves Unesc(Esc(s)) = s, value preservation around every cycle of the representation graph and serialise/parse round trips of XDM trees on the specification, shows that the implemented str.replace unescape chain is not confluent, and the dumped graphs (all strings <= 2-3 over the escape alphabet, JSON values of depth <= 2, trees N <= 3) are replayed on the real functions.',
+         'alphabet of 10 representative characters incl. a control, DEL and an astral character; parse-json escape=true excluded; number formatting compared by value; json.loads trusted as second oracle',
+         'DESIGN.md section 4 C17'),
 }
 NOT_YET = 'check not built yet (construction in progress, see DESIGN.md section 5)'
 
